@@ -210,6 +210,20 @@ func regC17(add addFn, p pFn) {
 			add(&Instance{Property: "C17", Name: "mic-checksum-e" + itoa(et) + "-n" + itoa(n), Entry: "gssapi.VH_C17_MICChecksum", Params: p("etype", et, "n", n), Stubs: cs, Logic: "QF_UFBV", Tier: tier, Reach: []string{"done"},
 				Bound: "payload of n symbolic bytes; flags, sequence number, key, usage symbolic"})
 		}
+		// every payload length 0..300 (the checksum input is assembled from payload and header: buffer boundaries)
+		for n := 0; n <= 300; n++ {
+			if n == 0 || n == 1 || n == 2 || n == 17 || n == 100 || n == 300 {
+				continue
+			}
+			tier := "thorough"
+			if et == 18 {
+				tier = "quick"
+			}
+			add(&Instance{Property: "C17", Name: "wrap-checksum-e" + itoa(et) + "-n" + itoa(n), Entry: "gssapi.VH_C17_WrapChecksum", Params: p("etype", et, "n", n), Stubs: cs, Logic: "QF_UFBV", Tier: tier, Reach: []string{"done"},
+				Bound: "payload of n symbolic bytes; flags, RRC, 64-bit sequence number, key, all 2^32 usages symbolic"})
+			add(&Instance{Property: "C17", Name: "mic-checksum-e" + itoa(et) + "-n" + itoa(n), Entry: "gssapi.VH_C17_MICChecksum", Params: p("etype", et, "n", n), Stubs: cs, Logic: "QF_UFBV", Tier: tier, Reach: []string{"done"},
+				Bound: "payload of n symbolic bytes; flags, sequence number, key, usage symbolic"})
+		}
 		for mode := 0; mode <= 4; mode++ {
 			add(&Instance{Property: "C17", Name: "wrap-binding-e" + itoa(et) + "-m" + itoa(mode), Entry: "gssapi.VH_C17_WrapBinding", Params: p("etype", et, "n", 3, "mode", mode), Stubs: append([]string{"idealmac"}, cs...), Logic: "QF_UFBV", Reach: []string{"checked"},
 				Bound: "3-byte payload; mode 0 payload / 1 flags / 2 sequence number / 3 key / 4 usage changed to ANY other value between checksum computation and verification (idealised MAC)"})
@@ -278,6 +292,14 @@ func regC06(add addFn, p pFn) {
 }
 
 func regC07(add addFn, p pFn) {
+	for _, et := range []int{16, 17, 18, 19, 20} {
+		for _, kl := range []int{0, 16, 24, 32} {
+			for _, cl := range []int{0, 12} {
+				add(&Instance{Property: "C07", Name: "verify-wrong-keylen-e" + itoa(et) + "-k" + itoa(kl) + "-c" + itoa(cl), Entry: "crypto.VH_C07_VerifyWrongKeyLength", Params: p("etype", et, "keylen", kl, "cklen", cl), Stubs: []string{"nfolduf", "des3rtkuf"}, Logic: "QF_UFBV",
+					Bound: "a key of " + itoa(kl) + " bytes (not the etype's length), any 3 data bytes, any candidate checksum of " + itoa(cl) + " bytes, any usage"})
+			}
+		}
+	}
 	for _, et := range allEtypes {
 		for _, n := range []int{0, 1, 64, 65, 200} {
 			tier := "quick"
@@ -562,6 +584,12 @@ func regC10b(add addFn, p pFn) {
 }
 
 func regC19b(add addFn, p pFn) {
+	for _, et := range []int{17, 18, 19, 20, 23} {
+		for o := 0; o < 6; o++ {
+			add(&Instance{Property: "C19", Name: "other-declared-type-e" + itoa(et) + "-o" + itoa(o), Entry: "pac.VH_C19_OtherDeclaredType", Params: p("etype", et, "other", o, "maxseq", 0, "maxstr", 0), Stubs: []string{"nfolduf", "des3rtkuf", "ndrhavoc"}, Logic: "QF_UFBV", Replay: "stubbed",
+				Bound: "service key of etype " + itoa(et) + "; the server signature declares checksum type #" + itoa(o) + " of {12, 15, 16, 1, 7, 0} with the signature length the reader assigns to it and arbitrary signature bytes"})
+		}
+	}
 	for _, c := range [][3]int{{1, 3, 0}, {2, 2, 0}, {1, 0, 3}, {1, 2, 2}, {0, 3, 2}} {
 		add(&Instance{Property: "C19", Name: "group-sids-g" + itoa(c[0]) + "-x" + itoa(c[1]) + "-r" + itoa(c[2]), Entry: "pac.VH_C19_GroupSIDs", Params: p("groups", c[0], "extra", c[1], "resource", c[2]), Stubs: []string{"exactfmt"},
 			Reach: []string{"done"}, Bound: itoa(c[0]) + " group ids, " + itoa(c[1]) + " extra SIDs, " + itoa(c[2]) + " resource groups; every sub-authority in 0..3 (every pattern of repeats among them)"})
@@ -569,6 +597,13 @@ func regC19b(add addFn, p pFn) {
 }
 
 func regC13b(add addFn, p pFn) {
+	for _, et := range []int{16, 17, 18, 19, 20, 23} {
+		for ty, tn := range []string{"Ticket", "APReq", "KRBPriv"} {
+			add(&Instance{Property: "C13", Name: "decrypt-leaves-encoding-alone-" + tn + "-e" + itoa(et), Entry: "messages.VH_C13_DecryptLeavesEncodingAlone", Params: p("etype", et, "n", 17, "type", ty, "maxseq", 1, "maxstr", 1),
+				Stubs: []string{"nfolduf", "des3rtkuf", "asn1havoc", "lineartime"}, Logic: "QF_UFBV", Replay: "stubbed", Reach: []string{"done", "decrypted"},
+				Bound: tn + " whose encrypted part is the RFC ciphertext (etype " + itoa(et) + ") of 17 symbolic bytes: Marshal, real decryption, Marshal"})
+		}
+	}
 	add(&Instance{Property: "C13", Name: "flags-from-zero-value", Entry: "types.VH_C13_FlagsFromZeroValue", Reach: []string{"done"}, Bound: "SetFlag/UnsetFlag on bit strings of 0..3 arbitrary octets, all flag indices in [0,32)"})
 	for t, n := range []string{"Ticket", "APReq", "ASRep", "TGSRep", "KRBPriv"} {
 		add(&Instance{Property: "C13", Name: "marshal-stable-across-decrypt-" + n, Entry: "messages.VH_C13_MarshalStableAcrossDecrypt", Params: p("type", t), Stubs: []string{"lineartime"},
